@@ -13,7 +13,7 @@ theorem getElem?_append_last {α : Type} (l : List α) (x : α) : (l ++ [x])[l.l
 at position 0 on the buffer bound to the path. -/
 theorem hOpen_r_fixed (cfg : HCfg) (hph : cfg.perHandle = true) (s s1 : HSt) (p : Path) (h : Nat)
     (hop : hOpen cfg s p .r = .ok (s1, h)) :
-    ∃ id, h = s.handles.length ∧ s1 = { s with handles := s.handles ++ [⟨id, 0⟩] } := by
+    ∃ id, h = s.handles.length ∧ s1 = { s with handles := s.handles ++ [⟨id, 0, false⟩] } := by
   unfold hOpen at hop
   split at hop
   · cases hop
